@@ -2,7 +2,7 @@
 INIT Init
 NEXT SimNext
 CONSTANTS
-  MaxBufs = 3
+  MaxBufs = 7
   Caps = {0, 4096}
   WSizes = {1, 4096, 1048576, 8388607, 8388608, 8388609}
   RSizes = {1, 4096, 1048576, 8388608}
